@@ -48,6 +48,10 @@ type clientConn struct {
 	cond *sync.Cond
 	hold bool
 	fail bool
+	// holdRet: writes deliver at once but return only after release
+	holdRet bool
+	hdr     []byte
+	need    int
 }
 
 func (c *clientConn) Read(b []byte) (int, error) { return c.r.Read(b) }
@@ -57,11 +61,52 @@ func (c *clientConn) Write(b []byte) (int, error) {
 		c.cond.Wait()
 	}
 	f := c.fail
+	late := c.holdRet
 	c.mu.Unlock()
 	if f {
 		return 0, errors.New("clientsched: write failed")
 	}
-	return c.w.Write(b)
+	n, err := c.w.Write(b)
+	// frame accounting: a frame may be written in several pieces; only the Write that completes a
+	// frame is the one whose return is delayed
+	c.mu.Lock()
+	rest := b[:n]
+	complete := false
+	for len(rest) > 0 {
+		if c.need == 0 {
+			c.hdr = append(c.hdr, rest[0])
+			rest = rest[1:]
+			if len(c.hdr) == 4 {
+				c.need = int(c.hdr[0]) | int(c.hdr[1])<<8 | int(c.hdr[2])<<16 | int(c.hdr[3])<<24
+				c.need -= 4
+				c.hdr = c.hdr[:0]
+				if c.need <= 0 {
+					c.need = 0
+					complete = true
+				}
+			}
+			continue
+		}
+		k := len(rest)
+		if k > c.need {
+			k = c.need
+		}
+		c.need -= k
+		rest = rest[k:]
+		if c.need == 0 {
+			complete = true
+		}
+	}
+	c.mu.Unlock()
+	if late && complete {
+		// the frame is delivered; the return is delayed (HoldReturns) until ReleaseReturns / a failure
+		c.mu.Lock()
+		for c.holdRet && !c.fail {
+			c.cond.Wait()
+		}
+		c.mu.Unlock()
+	}
+	return n, err
 }
 func (c *clientConn) Close() error { c.r.CloseRead(); c.w.CloseWrite(); return nil }
 
@@ -272,6 +317,15 @@ func run(t *wirecodec.Table, in *input, si int, quiet time.Duration) (*result, e
 		case "FailWrites":
 			cc.mu.Lock()
 			cc.fail = true
+			cc.cond.Broadcast()
+			cc.mu.Unlock()
+		case "HoldReturns":
+			cc.mu.Lock()
+			cc.holdRet = true
+			cc.mu.Unlock()
+		case "ReleaseReturns":
+			cc.mu.Lock()
+			cc.holdRet = false
 			cc.cond.Broadcast()
 			cc.mu.Unlock()
 		}
